@@ -923,7 +923,13 @@ func (s *Store[K, V]) insertSimple(entry *Entry[K, V]) {
 }
 
 func (s *Store[K, V]) processSecondary() {
-	for item := range s.secondaryCacheBuf {
+	for {
+		var item SecondaryCacheItem[K, V]
+		select {
+		case <-s.ctx.Done():
+			return
+		case item = <-s.secondaryCacheBuf:
+		}
 		tk := item.shard.mu.RLock()
 		// first double check key still exists in map,
 		// not exist means key already deleted by Delete API
